@@ -85,9 +85,18 @@ def run(ctx) -> None:
                     "MacroExpander._process_dict_tree", "MacroExpander._process_str_tree", "MacroExpander._apply_macro_to_tree",
                     "MacroExpander._collect_macro_references", "MacroExpander.is_macro_name", "Yaml2Regex._get_pattern")
     I = make_interp(ctx.p)
+    y2r = ctx.p.find_class("Yaml2Regex")
+    me = ctx.p.find_class("MacroExpander")
+    shape_rules(ctx, I, "C19.O1.undefined-reference-reported", "C19.O4.no-reference-survives", "C19.O2.expander-entered")
+    _rest(ctx, I, me, y2r)
+
+
+def shape_rules(ctx, I, R1, R4, R2, only_undefined=False):
     me = ctx.p.find_class("MacroExpander")
     y2r = ctx.p.find_class("Yaml2Regex")
     for label, macros, pattern, expect_undef in SHAPES:
+        if only_undefined and not expect_undef:
+            continue
         for via in ("expander", "pipeline"):
             def thunk(I, macros=macros, pattern=pattern, via=via):
                 if via == "expander":
@@ -101,26 +110,29 @@ def run(ctx) -> None:
             construct = f"MacroExpander.resolve_all_macros[{label}]" if via == "expander" else f"Yaml2Regex._get_pattern[{label}]"
             entered = any(e.kind == "enter" and e.func == "MacroExpander.resolve_all_macros" for p in paths for e in p.events)
             if via == "pipeline":
-                ctx.check(entered, "C19.O2.expander-entered", construct, "expander not entered",
+                ctx.check(entered, R2, construct, "expander not entered",
                           "a rule that supplies macro definitions goes through the expander")
             for p in paths:
                 if p.kind == "return":
                     left = leftovers(p.value)
                     if expect_undef:
-                        ctx.fail("C19.O1.undefined-reference-reported", construct,
+                        ctx.fail(R1, construct,
                                  f"returns normally ({'; '.join(p.cond_labels())[:80]}) leftovers={left}",
                                  f"an undefined reference ({label}) must end in an error on every path")
                     else:
-                        ctx.check(not left, "C19.O4.no-reference-survives", construct, f"leftovers={left}",
+                        ctx.check(not left, R4, construct, f"leftovers={left}",
                                   f"after expansion no string starting with '@' remains ({label})")
                 else:
                     named = _names(p.exc)
                     if expect_undef:
                         ok = p.exc.type_name == "ValueError" and any(n.startswith("@") for n in named)
-                        ctx.check(ok, "C19.O1.undefined-reference-reported", construct,
+                        ctx.check(ok, R1, construct,
                                   f"raises {p.exc!r} naming {named}"[:200], f"the error names the leftover reference ({label})")
                     else:
-                        ctx.ok("C19.O4.no-reference-survives", construct, f"raises (loud): {p.exc!r}"[:100])
+                        ctx.ok(R4, construct, f"raises (loud): {p.exc!r}"[:100])
+
+
+def _rest(ctx, I, me, y2r):
     # O5: a rule compiled after another rule (same extra macro file) is judged on its own definitions
     from ..matchflow import load_file_summary
     Is = make_interp(ctx.p, {"Yaml2Regex.load_file": load_file_summary})
